@@ -74,6 +74,11 @@ impl Recorder {
         }
     }
 
+    /// The number of events recorded so far.
+    pub fn seq(&self) -> u64 {
+        self.seq.load(Ordering::SeqCst)
+    }
+
     /// Takes the events recorded so far.
     pub fn take(&self) -> Vec<Value> {
         std::mem::take(&mut *self.events.lock().unwrap())
